@@ -488,41 +488,41 @@ func (fx *loopFx) callEffects(call *ssa.CallCommon, subst map[ssa.Value]ssa.Valu
 		if len(fc.Modifies) == 0 {
 			return
 		}
-		precise := true
-		var args []Val
+		// bind the arguments that are stable across iterations; a modifies item that mentions only
+		// those is havoc'd precisely, the others coarsely (whole arrays)
+		env := &SpecEnv{c: c, st: st, heap: st.heap, vars: map[string]Val{}, frame: fx.frame, pkg: c.eng.pkgOf(fc.PkgPath)}
+		names := c.paramNames(callee, fc, len(call.Args)+1)
+		idx := 0
 		if call.IsInvoke() {
-			if v, ok := fx.stable(call.Value, subst); ok {
-				args = append(args, v)
-			} else {
-				precise = false
+			if v, ok := fx.stable(call.Value, subst); ok && idx < len(names) {
+				env.vars[names[idx]] = v
 			}
+			idx++
 		}
 		for _, a := range call.Args {
-			if v, ok := fx.stable(a, subst); ok {
-				args = append(args, v)
-			} else {
-				precise = false
-				break
+			if v, ok := fx.stable(a, subst); ok && idx < len(names) {
+				env.vars[names[idx]] = v
 			}
+			idx++
 		}
-		if precise {
-			env := &SpecEnv{c: c, st: st, heap: st.heap, vars: map[string]Val{}, frame: fx.frame, pkg: c.eng.pkgOf(fc.PkgPath)}
-			names := c.paramNames(callee, fc, len(args))
-			for i, a := range args {
-				if i < len(names) {
-					env.vars[names[i]] = a
-				}
-			}
+		var coarse []ModItem
+		for _, m := range fc.Modifies {
 			save := len(c.errs)
-			for _, m := range fc.Modifies {
-				c.havocModItem(st, env, m, st.heap)
+			trial := st.clone()
+			env.st, env.heap = trial, trial.heap
+			c.havocModItem(trial, env, m, trial.heap)
+			if len(c.errs) != save {
+				c.errs = c.errs[:save]
+				coarse = append(coarse, m)
+				continue
 			}
-			if len(c.errs) == save {
-				return
-			}
-			c.errs = c.errs[:save]
+			env.st, env.heap = st, st.heap
+			c.havocModItem(st, env, m, st.heap)
 		}
-		c.havocModCoarse(st, callee, fc)
+		if len(coarse) == 0 {
+			return
+		}
+		c.havocModCoarse(st, callee, fc, coarse)
 		return
 	}
 	if callee != nil && callee.Blocks != nil && depth < 3 && (c.canInline(callee) || (fc != nil && fc.Inline)) {
@@ -543,20 +543,33 @@ func (fx *loopFx) callEffects(call *ssa.CallCommon, subst map[ssa.Value]ssa.Valu
 func (c *FnCtx) heapHavocRowAware(st *State, name string) { c.heapHavoc(st, name) }
 
 // havocModCoarse havocs whole arrays for every modifies item, by type.
-func (c *FnCtx) havocModCoarse(st *State, callee *ssa.Function, fc *FuncContract) {
+func (c *FnCtx) havocModCoarse(st *State, callee *ssa.Function, fc *FuncContract, items []ModItem) {
 	// Resolve the static types of the modifies expressions through a typed dummy environment.
 	dst := st.clone()
 	env := &SpecEnv{c: c, st: dst, heap: dst.heap, vars: map[string]Val{}, pkg: c.eng.pkgOf(fc.PkgPath)}
 	if callee != nil {
 		names := c.paramNames(callee, fc, len(callee.Params))
-		for i, p := range callee.Params {
+		var ptypes []types.Type
+		if sig := callee.Signature; sig != nil {
+			if sig.Recv() != nil {
+				ptypes = append(ptypes, sig.Recv().Type())
+			}
+			for i := 0; i < sig.Params().Len(); i++ {
+				ptypes = append(ptypes, sig.Params().At(i).Type())
+			}
+		}
+		for i, pt := range ptypes {
 			if i < len(names) {
-				env.vars[names[i]] = c.freshVal(dst, p.Type(), "dummy")
+				env.vars[names[i]] = c.freshVal(dst, pt, "dummy")
 			}
 		}
 	}
-	for _, m := range fc.Modifies {
+	for _, m := range items {
 		switch m.Kind {
+		case "every":
+			for _, name := range c.everyArrays(env.pkg, m) {
+				c.heapHavoc(st, name)
+			}
 		case "all":
 			for name := range c.allArrays() {
 				c.heapHavoc(st, name)
